@@ -34,8 +34,8 @@ TABLE = {
     "C07": {
         "module": "AcqVerif.Props.C07",
         "theorems": ["AcqVerif.C07.stop_returns_armed_and_clean", "AcqVerif.C07.stop_has_joined", "AcqVerif.C07.start_over_finished_threads",
-                     "AcqVerif.C07.idle_runtime_is_clean", "AcqVerif.C07.refusal_wakes_a_sleeping_source", "AcqVerif.Runtime.TInvAll.micro",
-                     "AcqVerif.Runtime.DWake.micro", "AcqVerif.Runtime.Reach.micro"],
+                     "AcqVerif.C07.idle_runtime_is_clean", "AcqVerif.C07.refusal_wakes_a_sleeping_source", "AcqVerif.C07.stop_never_waits_for_an_orphaned_sleeper",
+                     "AcqVerif.Runtime.TInvAll.micro", "AcqVerif.Runtime.DWake.micro", "AcqVerif.Runtime.DStop.micro", "AcqVerif.Runtime.Reach.micro"],
         "classes": ["abort", "abortmon", "holdmon", "trig", "avgabort", "stofault", "restart"],
         "kinds": ("still-running-after", "state-after", "never-returns", "stored-", "camera-delivered", "CRASH", "monitor-frame-not-from"),
         "what": "abort/stop from any moment (ring full, client holding data, trigger wait, averaging, finished) return, leave workers finished, devices "
@@ -105,10 +105,10 @@ def run(ctx):
     if m2 is not None:
         m2.run_m2(ctx, ex)       # control plane: device open/close/set/start/stop per API call, model M2 vs the real runtime
     thorough = ctx.tier == "thorough"
-    nscen, nsched = (60, 14) if thorough else (12, 7)
+    nscen, nsched = (40, 14) if thorough else (12, 7)
     rtx.explore(ctx, ex, t["classes"], nscen, nsched, rel)
     # systematic part: all schedules within `bound` deviations of the fair one, for a few scenarios of each class
-    bound, budget, per_class = (2, 4000, 3) if thorough else (1, 260, 1)
+    bound, budget, per_class = (2, 1500, 2) if thorough else (1, 260, 1)
     for cls in t["classes"]:
         for _ in range(per_class):
             sc = rtx.gen(ctx.rng, cls)
